@@ -63,7 +63,12 @@ impl std::io::Read for SchedRead {
         let ev = if self.idx < self.sched.len() { self.sched[self.idx] } else { Some(1_000_000_000) };
         self.idx += 1;
         match ev {
-            None => Err(std::io::Error::new(std::io::ErrorKind::Other, "injected fault")),
+            None => {
+                // the io::ErrorKind of an injected fault varies deterministically with the reader's state, so that code
+                // which special-cases one kind (UnexpectedEof as "end of data", Interrupted / WouldBlock as "retry")
+                // is exercised; the canonical output maps every kind to the same class
+                Err(injected_fault(self.pos + self.idx))
+            }
             Some(n) => {
                 let k = n.max(1).min(buf.len()).min(self.data.len() - self.pos);
                 buf[..k].copy_from_slice(&self.data[self.pos..self.pos + k]);
@@ -73,6 +78,13 @@ impl std::io::Read for SchedRead {
             }
         }
     }
+}
+
+/// the error of an injected read fault; its io::ErrorKind rotates with `salt` (reader state)
+pub fn injected_fault(salt: usize) -> std::io::Error {
+    use std::io::ErrorKind::*;
+    const KINDS: [std::io::ErrorKind; 8] = [Other, UnexpectedEof, BrokenPipe, UnexpectedEof, WouldBlock, Interrupted, UnexpectedEof, TimedOut];
+    std::io::Error::new(KINDS[salt % 8], "injected fault")
 }
 
 /// "-" = empty schedule; otherwise comma separated counts, `F` = fault
